@@ -571,7 +571,7 @@ let exec (s : t) (verbose : bool) (f : string array) (obs : string option) : str
     let ((d, r), evs) = batch_get (get_db s) (get_batch s) (tok_bytes f.(2)) in
     s.db <- Some d;
     (match r with Inl v -> "ok " ^ obs_bytes v | Inr e -> "err " ^ eerr_name e) ^ events_str evs
-  | "holebatch" ->
+  | "holebatch" | "orphanbatch" ->
     (* an experiment on a database of its own, judged by the harness against the property's words (all or nothing);
        nothing of the scenario's database is touched *)
     (match obs with Some o -> obs_head o | None -> "ok")
